@@ -704,3 +704,295 @@ Proof.
   destruct (Z.to_nat z) as [|[|[|[|[|k]]]]]; simpl;
     try (left; split; reflexivity); right; (split; [split; [reflexivity|discriminate]|reflexivity]).
 Qed.
+
+(* =======================================================================================
+   Source-translator obligations (round 3, harness/translate/x_assemble.py): the ORDER HELPERS of
+   src/cr/cube/matrix/assembler.py and src/cr/cube/stripe/assembler.py and the enumerations of enums.py they
+   dispatch on are read from the source text on every check (Gen/SortTablesSrc.v, Gen/OrderHelperSrc.v;
+   meaning: Base/OrderExp.v - Python with exceptions, `try .. except ValueError`, `.index`, `{..}.get`,
+   `m[:, j]` / `m[i, :]`; environments: Proofs/GenAgreeOrderTac.v) and proved to denote the definitions of
+   Model/SortKeys.v / Model/OrderOrient.v the theorems above are about (Proofs/GenAgreeSortTables.v,
+   GenAgreeOrderHelpers.v, GenAgreeOrderStrand.v).  This replaces the `ast` comparison of the keyword tables
+   that harness/props/c08.py used to do in its own code (it now calls the translator's reader).
+   ======================================================================================= *)
+From Coq Require String.
+From CC Require Base.AsmExp Base.OrderExp Model.OrderOrient Gen.SortTablesSrc Gen.OrderHelperSrc
+     Proofs.GenAgreeSortTables Proofs.GenAgreeOrderTac Proofs.GenAgreeOrderHelpers Proofs.GenAgreeOrderStrand.
+Section GenAgreeAssemble_C08.   (* scopes and imports below end with the section *)
+Import Coq.Strings.String CC.Base.AsmExp CC.Base.OrderExp CC.Model.OrderOrient CC.Gen.SortTablesSrc
+       CC.Gen.OrderHelperSrc CC.Proofs.GenAgreeSortTables CC.Proofs.GenAgreeOrderTac
+       CC.Proofs.GenAgreeOrderHelpers CC.Proofs.GenAgreeOrderStrand.
+Local Open Scope string_scope.
+
+(* the three keyword tables of the source, as lookups ({..}.get(k), last binding of a repeated key), are
+   the model's tables for EVERY keyword string; the values of MEASURE / MARGINAL are the model's
+   enumerations; COLLATION_METHOD has exactly the seven "type" keywords [method_of] distinguishes *)
+Theorem C08_gen_sort_tables :
+  (match tbl_matrix_sort_measures with Some t => lookup_agrees t matrix_table | None => True end) /\
+  (match tbl_marginal_sort_marginals with Some t => lookup_agrees t marginal_table | None => True end) /\
+  (match tbl_strand_sort_measures with Some t => lookup_agrees t strand_table | None => True end) /\
+  (match tbl_MEASURE with Some t => same_members (map snd t) measure_enum | None => True end) /\
+  (match tbl_MARGINAL with Some t => same_members (map snd t) marginal_enum | None => True end) /\
+  (match tbl_COLLATION_METHOD with
+   | Some t => same_members (map snd t) collation_keywords /\ NoDup (map snd t) /\ NoDup (map fst t)
+   | None => True end).
+Proof.
+  exact (conj gen_matrix_sort_measures (conj gen_marginal_sort_marginals (conj gen_strand_sort_measures
+        (conj gen_MEASURE_values (conj gen_MARGINAL_values gen_COLLATION_METHOD_values))))).
+Qed.
+Print Assumptions C08_gen_sort_tables.
+
+(* _OrderSpec.collation_method over the COLLATION_METHOD members read from enums.py, keyword by keyword *)
+Theorem C08_gen_collation_method :
+  match tbl_COLLATION_METHOD with Some cm => cm_spec cm | None => True end.
+Proof. exact gen_cm_spec. Qed.
+Print Assumptions C08_gen_collation_method.
+
+(* every sort-by-value helper class of a slice resolves ITS key the way [rows_values] / [columns_values] say
+   for the method it stands for - which block of the measure the keyword table names, which column / row,
+   found through which id list of the OPPOSING dimension (translated element id, insertion id, derived
+   element), labels, marginal blocks - catches ValueError only (-> payload order), lets KeyError /
+   NotImplementedError escape, and prunes subtotals by the opposing dimension ([rows_model], [cols_model]) *)
+Theorem C08_gen_matrix_sort_helpers :
+  rows_class ord_matrix__SortRowsByBaseColumnHelper__display_order MOppElement any_dims /\
+  rows_class ord_matrix__SortRowsByDerivedColumnHelper__display_order MOppInsertion
+             (fun _ cols => d_array cols = true) /\
+  rows_class ord_matrix__SortRowsByInsertedColumnHelper__display_order MOppInsertion
+             (fun _ cols => d_array cols = false) /\
+  rows_class ord_matrix__SortRowsByLabelHelper__display_order MLabel any_dims /\
+  rows_class ord_matrix__SortRowsByMarginalHelper__display_order MMarginal any_dims /\
+  cols_class ord_matrix__SortColumnsByLabelHelper__display_order MLabel /\
+  cols_class ord_matrix__SortColumnsByBaseRowHelper__display_order MOppElement /\
+  cols_class ord_matrix__SortColumnsByInsertedRowHelper__display_order MOppInsertion.
+Proof.
+  exact (conj gen_matrix_SortRowsByBaseColumnHelper (conj gen_matrix_SortRowsByDerivedColumnHelper
+        (conj gen_matrix_SortRowsByInsertedColumnHelper (conj gen_matrix_SortRowsByLabelHelper
+        (conj gen_matrix_SortRowsByMarginalHelper (conj gen_matrix_SortColumnsByLabelHelper
+        (conj gen_matrix_SortColumnsByBaseRowHelper gen_matrix_SortColumnsByInsertedRowHelper))))))).
+Qed.
+Print Assumptions C08_gen_matrix_sort_helpers.
+
+(* the strand twins: labels; the two blocks of the measure the keyname table names (a keyname outside the
+   table is a ValueError, hence the payload order) *)
+Theorem C08_gen_stripe_sort_helpers :
+  strand_class ord_stripe__SortByLabelHelper__display_order MLabel /\
+  strand_class ord_stripe__SortByMeasureHelper__display_order MUnivariate.
+Proof. exact (conj gen_stripe_SortByLabelHelper gen_stripe_SortByMeasureHelper). Qed.
+Print Assumptions C08_gen_stripe_sort_helpers.
+
+(* the factories: for EVERY "type" keyword, dimensions, order dicts, measures object, pruning masks and id
+   translation the helper class the source picks computes [slice_row_order] / [slice_column_order] /
+   [strand_order] - i.e. [method_of] is the dispatch of the source, [rows_values] .. its key resolution,
+   the fallback and the subtotal pruning included *)
+Theorem C08_gen_row_display_order :
+  with_tables (fun cm me ma t1 t2 _ =>
+    match ord_matrix_row_display_order with
+    | Some e => forall rows cols rreq creq rmask cmask rl cl tr env marg,
+        names_apart env marg ->
+        heval' (henv_slice cm me ma t1 t2 rows cols rreq creq rmask cmask rl cl tr env marg) e
+        = to_hres (slice_row_order (sl_sd rows cols rreq creq rmask cmask rl cl tr) env marg)
+    | None => True
+    end).
+Proof. exact gen_matrix_row_display_order. Qed.
+Print Assumptions C08_gen_row_display_order.
+
+Theorem C08_gen_column_display_order :
+  with_tables (fun cm me ma t1 t2 _ =>
+    match ord_matrix_column_display_order with
+    | Some e => forall rows cols rreq creq rmask cmask rl cl tr env marg,
+        names_apart env marg ->
+        heval' (henv_slice cm me ma t1 t2 rows cols rreq creq rmask cmask rl cl tr env marg) e
+        = to_hres (slice_column_order (sl_sd rows cols rreq creq rmask cmask rl cl tr) env)
+    | None => True
+    end).
+Proof. exact gen_matrix_column_display_order. Qed.
+Print Assumptions C08_gen_column_display_order.
+
+Theorem C08_gen_strand_display_order :
+  with_tables (fun cm _ _ _ _ t3 =>
+    match ord_stripe_display_order with
+    | Some e => forall dim req pbase labels env,
+        heval' (henv_strand cm t3 dim req pbase labels env) e
+        = to_hres (strand_order dim req env (fst labels) (snd labels) (where_zero pbase))
+    | None => True
+    end).
+Proof. exact gen_stripe_display_order. Qed.
+Print Assumptions C08_gen_strand_display_order.
+End GenAgreeAssemble_C08.
+
+(*BEGIN GenAgreeCollator_C08*)
+(* ------------------------------------------------------------------------------------ *)
+(* SOURCE TEXT of SortByValueCollator (harness/translate/x_collator.py -> Gen/CollatorSrc.v, see the
+   appendix of Props/C07.v): for ALL dimensions, value vectors (numbers incl. NaN, labels), fixed lists,
+   directions, empty sets and both order formats each generated member IS the definition of
+   Model/Collator.v the theorems above are about ([sort_of spec] = the order transform as the model's
+   sort spec). *)
+From CC Require Proofs.GenAgreeCollatorAnchored Proofs.GenAgreeCollatorSbv.
+Section GenAgreeCollator_C08.   (* scopes and imports below end with the section *)
+Import Coq.Lists.List Coq.ZArith.ZArith CC.Base.SortX CC.Base.PyList CC.Spec.OrderSpec CC.Model.Collator
+       CC.Model.PyCollator CC.Gen.CollatorSrc CC.Proofs.GenAgreeCollatorLib CC.Proofs.GenAgreeCollatorAnchored
+       CC.Proofs.GenAgreeCollatorSbv.
+Import Coq.Lists.List.ListNotations.
+Local Open Scope Z_scope.
+
+Theorem C08_gen_Sbv__elements :
+  match src_SortByValueCollator__elements with
+  | Some f => forall d spec empties fmt vals svals,
+      f (pyself_of d spec empties fmt vals svals) = d_elems d
+  | None => True end.
+Proof. exact gen_Sbv__elements. Qed.
+Print Assumptions C08_gen_Sbv__elements.
+
+Theorem C08_gen_Sbv__element_ids :
+  match src_SortByValueCollator__element_ids with
+  | Some f => forall d spec empties fmt vals svals,
+      f (pyself_of d spec empties fmt vals svals) = d_ids d
+  | None => True end.
+Proof. exact gen_Sbv__element_ids. Qed.
+Print Assumptions C08_gen_Sbv__element_ids.
+
+Theorem C08_gen_Sbv__subtotals_bogus_ids :
+  match src_SortByValueCollator__subtotals_bogus_ids with
+  | Some f => forall d spec empties fmt vals svals,
+      f (pyself_of d spec empties fmt vals svals) = plain_bogus_ids d
+  | None => True end.
+Proof. exact gen_Sbv__subtotals_bogus_ids. Qed.
+Print Assumptions C08_gen_Sbv__subtotals_bogus_ids.
+
+Theorem C08_gen_Sbv__order_mapping :
+  match src_SortByValueCollator__order_mapping with
+  | Some f => forall d spec empties fmt vals svals,
+      f (pyself_of d spec empties fmt vals svals) = order_mapping (plain_bogus_ids d)
+  | None => True end.
+Proof. exact gen_Sbv__order_mapping. Qed.
+Print Assumptions C08_gen_Sbv__order_mapping.
+
+Theorem C08_gen_Sbv__order_spec :
+  match src_SortByValueCollator__order_spec with
+  | Some f => forall d spec empties fmt vals svals,
+      f (pyself_of d spec empties fmt vals svals) = spec
+  | None => True end.
+Proof. exact gen_Sbv__order_spec. Qed.
+Print Assumptions C08_gen_Sbv__order_spec.
+
+Theorem C08_gen_Sbv__subtotals :
+  match src_SortByValueCollator__subtotals with
+  | Some f => forall d spec empties fmt vals svals,
+      f (pyself_of d spec empties fmt vals svals) = pysubs_of d (subtotals d)
+  | None => True end.
+Proof. exact gen_Sbv__subtotals. Qed.
+Print Assumptions C08_gen_Sbv__subtotals.
+
+Theorem C08_gen_Sbv__descending :
+  match src_SortByValueCollator__descending with
+  | Some f => forall d spec empties fmt vals svals,
+      f (pyself_of d spec empties fmt vals svals) = s_desc (sort_of spec)
+  | None => True end.
+Proof. exact gen_Sbv__descending. Qed.
+Print Assumptions C08_gen_Sbv__descending.
+
+Theorem C08_gen_Sbv__is_nan :
+  match src_SortByValueCollator__is_nan with
+  | Some f => forall d spec empties fmt vals svals v,
+      f (pyself_of d spec empties fmt vals svals) v = Ok (sval_nan v)
+  | None => True end.
+Proof. exact gen_Sbv__is_nan. Qed.
+Print Assumptions C08_gen_Sbv__is_nan.
+
+Theorem C08_gen_Sbv__subtotal_idxs :
+  match src_SortByValueCollator__subtotal_idxs with
+  | Some f => forall d spec empties fmt vals svals,
+      f (pyself_of d spec empties fmt vals svals) = Ok (subtotal_idxs (s_desc (sort_of spec)) svals)
+  | None => True end.
+Proof. exact gen_Sbv__subtotal_idxs. Qed.
+Print Assumptions C08_gen_Sbv__subtotal_idxs.
+
+Theorem C08_gen_Sbv__top_subtotal_idxs :
+  match src_SortByValueCollator__top_subtotal_idxs with
+  | Some f => forall d spec empties fmt vals svals,
+      f (pyself_of d spec empties fmt vals svals)
+      = Ok (if s_desc (sort_of spec) then subtotal_idxs (s_desc (sort_of spec)) svals else [])
+  | None => True end.
+Proof. exact gen_Sbv__top_subtotal_idxs. Qed.
+Print Assumptions C08_gen_Sbv__top_subtotal_idxs.
+
+Theorem C08_gen_Sbv__bottom_subtotal_idxs :
+  match src_SortByValueCollator__bottom_subtotal_idxs with
+  | Some f => forall d spec empties fmt vals svals,
+      f (pyself_of d spec empties fmt vals svals)
+      = Ok (if s_desc (sort_of spec) then [] else subtotal_idxs (s_desc (sort_of spec)) svals)
+  | None => True end.
+Proof. exact gen_Sbv__bottom_subtotal_idxs. Qed.
+Print Assumptions C08_gen_Sbv__bottom_subtotal_idxs.
+
+Theorem C08_gen_Sbv__iter_fixed_idxs :
+  match src_SortByValueCollator__iter_fixed_idxs with
+  | Some f => forall d spec empties fmt vals svals listed,
+      f (pyself_of d spec empties fmt vals svals) listed = Ok (map Z.of_nat (fixed_idxs (d_ids d) listed))
+  | None => True end.
+Proof. exact gen_Sbv__iter_fixed_idxs. Qed.
+Print Assumptions C08_gen_Sbv__iter_fixed_idxs.
+
+Theorem C08_gen_Sbv__top_fixed_idxs :
+  match src_SortByValueCollator__top_fixed_idxs with
+  | Some f => forall d spec empties fmt vals svals,
+      f (pyself_of d spec empties fmt vals svals)
+      = Ok (map Z.of_nat (fixed_idxs (d_ids d) (s_top (sort_of spec))))
+  | None => True end.
+Proof. exact gen_Sbv__top_fixed_idxs. Qed.
+Print Assumptions C08_gen_Sbv__top_fixed_idxs.
+
+Theorem C08_gen_Sbv__bottom_fixed_idxs :
+  match src_SortByValueCollator__bottom_fixed_idxs with
+  | Some f => forall d spec empties fmt vals svals,
+      f (pyself_of d spec empties fmt vals svals)
+      = Ok (map Z.of_nat (fixed_idxs (d_ids d) (s_bottom (sort_of spec))))
+  | None => True end.
+Proof. exact gen_Sbv__bottom_fixed_idxs. Qed.
+Print Assumptions C08_gen_Sbv__bottom_fixed_idxs.
+
+Theorem C08_gen_Sbv__body_idxs :
+  match src_SortByValueCollator__body_idxs with
+  | Some f => forall d spec empties fmt vals svals,
+      f (pyself_of d spec empties fmt vals svals)
+      = Ok (body_idxs (s_desc (sort_of spec)) vals
+                      (fixed_idxs (d_ids d) (s_top (sort_of spec))
+                       ++ fixed_idxs (d_ids d) (s_bottom (sort_of spec))))
+  | None => True end.
+Proof. exact gen_Sbv__body_idxs. Qed.
+Print Assumptions C08_gen_Sbv__body_idxs.
+
+Theorem C08_gen_Sbv__display_order :
+  match src_SortByValueCollator__display_order with
+  | Some f => forall d spec empties fmt vals svals,
+      f (pyself_of d spec empties fmt vals svals)
+      = display_result fmt
+          (Ok (sbv_display d (sort_of spec) vals svals empties))
+          (render_bogus (order_mapping (plain_bogus_ids d))
+                        (sbv_display d (sort_of spec) vals svals empties))
+  | None => True end.
+Proof. exact gen_Sbv__display_order. Qed.
+Print Assumptions C08_gen_Sbv__display_order.
+
+Theorem C08_gen_Sbv___init__ :
+  match src_SortByValueCollator___init__ with
+  | Some f => forall (dim : pydim) (vals svals : list sval) (empty : list Z) (fmt : order_format),
+      f dim vals svals empty fmt = mkPyCollator dim empty fmt vals svals
+  | None => True end.
+Proof. exact gen_Sbv___init__. Qed.
+Print Assumptions C08_gen_Sbv___init__.
+
+Theorem C08_gen_Sbv_display_order :
+  match src_SortByValueCollator_display_order with
+  | Some f => forall d spec vals svals empties fmt,
+      f (pydim_of d spec) vals svals (map Z.of_nat empties) fmt
+      = display_result fmt
+          (Ok (sbv_display d (sort_of spec) vals svals empties))
+          (render_bogus (order_mapping (plain_bogus_ids d))
+                        (sbv_display d (sort_of spec) vals svals empties))
+  | None => True end.
+Proof. exact gen_Sbv_display_order. Qed.
+Print Assumptions C08_gen_Sbv_display_order.
+
+End GenAgreeCollator_C08.
+(*END GenAgreeCollator_C08*)
